@@ -29,6 +29,7 @@ import (
 	"github.com/invopop/gobl/num"
 	"github.com/invopop/gobl/tax"
 
+	"verifharness/internal/conc"
 	"verifharness/internal/core"
 )
 
@@ -450,11 +451,50 @@ func Run(c *core.Ctx) int {
 		return c.Finish(rule, nil)
 	}
 	i := 0
+	answer := map[string]string{}
 	for _, e := range evs {
 		e.judge(resp[i : i+len(e.Reqs)])
+		for k, rq := range e.Reqs {
+			answer[rq] = resp[i+k]
+		}
 		i += len(e.Reqs)
 	}
 	tableChecks(c)
+	// the rate in force is a function of the published tables: after the library has handled
+	// documents (full pipeline over every regime x addon combination, the documents written over
+	// afterwards) every table lookup must still give the same answer
+	if !c.ReplayCase(&one) {
+		if inputs, _, err := conc.LoadExamples(c.Repo); err == nil {
+			docs := conc.CrossAddons(inputs)
+			if !c.Thorough() && len(docs) > 120 {
+				docs = docs[:120]
+			}
+			for _, d := range docs {
+				_ = conc.Pipeline(d)
+			}
+			c.Count("after-use:documents-handled", int64(len(docs)))
+			for _, cs := range cases {
+				if cs.Path != "value" {
+					continue
+				}
+				e := prepareValue(c, cs)
+				if e == nil {
+					continue
+				}
+				rs := make([]string, len(e.Reqs))
+				ok := true
+				for k, rq := range e.Reqs {
+					if rs[k], ok = answer[rq]; !ok {
+						break
+					}
+				}
+				if ok {
+					c.Count("after-use:lookups", 1)
+					e.judge(rs)
+				}
+			}
+		}
+	}
 	return c.Finish(rule, map[string]any{"exhaustive": true})
 }
 
